@@ -99,8 +99,8 @@ func (r *runner) runSetRec(flows []Flow, txns []Txn, allOrders bool, label strin
 				o.MonitorChecked(1)
 				if !reflect.DeepEqual(k.Obs[i].Selected, first.Obs[i].Selected) {
 					sig := "order-dependent:AddFlow"
-					if kindCollision(k.Flows) {
-						sig = "host-path-collision:insert"
+					if !kcURL(k.Flows, k.Obs[i].Txn.URL) {
+						sig = "host-path-collision:insert" // F-C03c, judged on this URL only
 					}
 					mini := Case{Flows: k.Flows, AddErr: k.AddErr, Obs: []Obs{k.Obs[i]}}
 					o.Hit(c.Hit{Suite: suite, Index: idx, Signature: sig,
@@ -148,7 +148,8 @@ func main() {
 		"with 1-3 parts (host labels / path segments), loaded into a fresh FilterTree in EVERY order, x URL shapes derived " +
 		"from the patterns (instances, 1-2 extra trailing segments, missing last part, trailing '/', host only, host/path " +
 		"switched, unknown token); same-URL flow pairs x all constraint variants (method/header/query/status) x all " +
-		"request/response variants; random larger sets; engine-level sample. A case = one flow set in one load order with " +
+		"request/response variants (incl. the request stream handled as a response without a response object); random " +
+		"larger sets; engine-level sample (also through exec_flow: anything happened <-> something selected). A case = one flow set in one load order with " +
 		"its batch of transactions; distinct = distinct (ordered flow set, transactions, selections); non-trivial = at least " +
 		"one transaction selects a flow")
 	r := &runner{o: o}
